@@ -115,8 +115,20 @@ def cc(out, srcs, flags=(), cxx=False, timeout=300):
 # ----------------------------------------------------------------------------------------------
 
 def gen_constants():
-    """Regenerate Gen/Constants.lean and Gen/BitRev.lean from /repo's working tree.
-    Returns (ok, log)."""
+    """Regenerate Gen/Constants.lean and Gen/BitRev.lean from /repo's working tree (serialised with the
+    lake lock: concurrent checks share build/ and lean/UrcuVerif/Gen).  Returns (ok, log)."""
+    import fcntl
+    ensure_dirs()
+    lockf = open(os.path.join(BUILD, "lake.lock"), "w")
+    fcntl.flock(lockf, fcntl.LOCK_EX)
+    try:
+        return _gen_constants()
+    finally:
+        fcntl.flock(lockf, fcntl.LOCK_UN)
+        lockf.close()
+
+
+def _gen_constants():
     ensure_dirs()
     gc_c = os.path.join(BUILD, "gen_constants.c")
     rc, log = sh([sys.executable, os.path.join(HARN, "gen", "gen_constants.py"), gc_c], timeout=60)
